@@ -291,6 +291,8 @@ class Ctx:
         return stats
 
     def units(self, name, func, arglist, procs=None):
+        if getattr(self, "only", None) and name not in self.only:
+            return None
         t = time.time()
         st = run_units(func, arglist, procs)
         st.notes["wall_s"] = round(time.time() - t, 2)
